@@ -2,6 +2,7 @@ package zzverif
 
 import (
 	"fmt"
+	"net/url"
 	"os"
 	"path/filepath"
 	"sort"
@@ -92,6 +93,7 @@ func (w *qWorld) settle() {
 	synctest.Wait()
 	w.collect()
 	w.inBurst = false
+	w.epoch++ // operations issued from now on belong to the next settle epoch
 }
 
 type coFrame struct {
@@ -129,7 +131,7 @@ func (w *qWorld) collect() {
 	}
 	// delete must disconnect the consumers (C08)
 	for _, co := range w.cons {
-			if co.expectClose && !co.Dead && !co.cl.Closed() && co.expectCloseStep < w.rc.step {
+			if co.expectClose && !co.Dead && !co.cl.Closed() && co.expectCloseStep < w.epoch {
 			w.violate("C08", "consumer-not-disconnected", "%s still connected after delete of %s was acknowledged", co.cl.Name, co.ck)
 			co.expectClose = false
 		}
@@ -152,7 +154,7 @@ func (w *qWorld) onError(co *consumer, f Frame) {
 		kind := map[string]string{"E_FIN_FAILED": "fin", "E_REQ_FAILED": "req", "E_TOUCH_FAILED": "touch"}[code]
 		// stale commands first (oldest unresolved of this kind and id)
 		for _, s := range w.stale {
-			if s.co == co && !s.failed && strings.ToLower(s.kind) == kind && s.d.mc.pub.ID == id && s.step == w.rc.step {
+			if s.co == co && !s.failed && strings.ToLower(s.kind) == kind && s.d.mc.pub.ID == id && s.step == w.epoch {
 				s.failed = true
 				return
 			}
@@ -186,7 +188,7 @@ func (w *qWorld) onError(co *consumer, f Frame) {
 // legitimate if the message may have timed out, or was emptied/deleted.
 func (w *qWorld) onAnswerFailed(co *consumer, d *delivery, kind string) {
 	w.rc.Probe("answer_failed_" + kind)
-	if d.Voided {
+	if d.Voided || d.maybeAnswered {
 		return
 	}
 	cm := w.chans[co.ck]
@@ -254,7 +256,7 @@ func (w *qWorld) resolveAnswers() {
 	}
 	// stale commands must have failed (checked for single-operation steps only)
 	for _, s := range w.stale {
-		if s.step != w.rc.step || s.burst {
+		if s.step != w.epoch || s.burst {
 			continue
 		}
 		if s.co.Dead {
@@ -288,6 +290,28 @@ func (w *qWorld) applyVoids() {
 		}
 		c.pendingVoid = false
 		t := w.topic(c.Topic)
+		// messages handed to a consumer while the empty was running escaped it
+		esc := int64(0)
+		for _, mc := range c.msgs {
+			for _, d := range mc.dels {
+				if d.Step == w.epoch {
+					esc++
+				}
+			}
+		}
+		if esc > 0 {
+			w.rc.Probe("escaped_empty")
+			c.Discarded -= esc
+			for _, co := range w.cons {
+				if co.ck == c.Key && co.Subscribed && !co.Unbuffered && (!co.Dead || co.DeadStep == w.epoch) {
+					c.Tainted = true // more may sit unseen in an output buffer
+				}
+			}
+			if c.Discarded < 0 {
+				c.Discarded = 0
+				c.Tainted = true
+			}
+		}
 		for _, p := range w.pubList {
 			if p.Topic != c.Topic || !p.Acked || p.AckSeq >= c.VoidSeq || p.SendStep >= c.VoidStep {
 				continue
@@ -295,6 +319,9 @@ func (w *qWorld) applyVoids() {
 			// it certainly had reached the channel: either seen there, or the
 			// topic was never paused while it was on its way
 			mc := c.msgs[p.Key]
+			if mc != nil && len(mc.dels) > 0 && lastDel(mc).Step >= c.VoidStep {
+				continue // handed to a consumer while the empty/delete was running: it escaped
+			}
 			reached := mc != nil && len(mc.dels) > 0
 			if !reached && !p.TopicPausedAtSend && !t.pausedBetween(p.SendStep, c.VoidStep) {
 				for _, n := range p.ChansAtPub {
@@ -304,7 +331,8 @@ func (w *qWorld) applyVoids() {
 				}
 			}
 			if reached {
-				c.discarded[p.Key] = w.rc.step
+				c.discarded[p.Key] = w.epoch
+				c.discardedAt[p.Key] = time.Now()
 			}
 		}
 	}
@@ -348,7 +376,7 @@ func (w *qWorld) onMessage(co *consumer, f Frame) {
 		return
 	}
 	rc.Probe("deliveries")
-	step := rc.step
+	step := w.epoch
 	if !isHex16(wm.ID) {
 		w.violate("C07", "bad-id", "id %q is not 16 hex characters", wm.ID)
 	}
@@ -369,10 +397,13 @@ func (w *qWorld) onMessage(co *consumer, f Frame) {
 		if wm.Timestamp < lo || wm.Timestamp > hi {
 			w.violate("C07", "timestamp-not-publish-time", "m%06d timestamp %d outside its publish interval [%d,%d]", p.N, wm.Timestamp, lo, hi)
 		}
-		ids := w.idsByTopic[p.Topic]
+		// uniqueness is per topic incarnation: a deleted and re-created topic
+		// has a fresh generator (see DESIGN.md, C12 notes)
+		tk := fmt.Sprintf("%s#%d", p.Topic, p.topicEpoch)
+		ids := w.idsByTopic[tk]
 		if ids == nil {
 			ids = map[string]*pubRec{}
-			w.idsByTopic[p.Topic] = ids
+			w.idsByTopic[tk] = ids
 		}
 		if q := ids[wm.ID]; q != nil && q != p {
 			w.violate("C12", "duplicate-id", "topic %s handed id %s to m%06d and m%06d", p.Topic, wm.ID, q.N, p.N)
@@ -395,18 +426,32 @@ func (w *qWorld) onMessage(co *consumer, f Frame) {
 	}
 	prev := lastDel(mc)
 	d := &delivery{mc: mc, cons: co, Att: wm.Attempts, At: f.At, Seq: f.Seq, Step: step, lifetime: w.lifetime}
-	rc.Logf("%s <- m%06d id=%s att=%d", co.cl.Name, p.N, wm.ID, wm.Attempts)
+	rc.Logf("%s <- m%06d id=%s att=%d at=%.3f", co.cl.Name, p.N, wm.ID, wm.Attempts, f.At.Sub(rc.start).Seconds())
 
 	// ---- C08: discarded messages must not come back
-	if ds, ok := cm.discarded[p.Key]; ok && step > ds {
-		w.violate("C08", "discarded-message-delivered", "m%06d was on %s when it was emptied/deleted (acknowledged in step %d) and is delivered in step %d", p.N, cm.Key, ds, step)
-	}
-	if td, ok := t.discarded[p.Key]; ok && step > td {
-		w.violate("C08", "deleted-topic-message-delivered", "m%06d was published to %s before its deletion (step %d) and is delivered in step %d", p.N, t.Name, td, step)
+	// (a frame that already sat in the connection's output buffer may still arrive within its flush timeout)
+	if sl, bounded := co.slack(); bounded {
+		if ds, ok := cm.discarded[p.Key]; ok && step > ds && f.At.After(cm.discardedAt[p.Key].Add(sl)) {
+			w.violate("C08", "discarded-message-delivered", "m%06d was on %s when it was emptied/deleted (acknowledged in step %d) and is delivered in step %d", p.N, cm.Key, ds, step)
+		}
+		if td, ok := t.discarded[p.Key]; ok && step > td && f.At.After(t.discardedAt[p.Key].Add(sl)) {
+			w.violate("C08", "deleted-topic-message-delivered", "m%06d was published to %s before its deletion (step %d) and is delivered in step %d", p.N, t.Name, td, step)
+		}
 	}
 
 	// ---- C02: FIN is final
-	if mc.fin {
+	ghost := false
+	if prev != nil && prev.cons == co && prev.Answer != "" {
+		// the frame may already have been in this connection's output buffer
+		// when the client sent its answer (which names the message by id, so
+		// the answer may have been applied to this very delivery)
+		if sl, bounded := co.slack(); !bounded || !f.At.After(prev.AnsAt.Add(sl)) {
+			ghost = true
+			rc.Probe("ghost_delivery")
+		}
+	}
+	d.maybeAnswered = ghost
+	if mc.fin && !ghost && !cm.Unordered {
 		w.violate("C02", "delivered-after-fin", "m%06d delivered on %s (attempt %d) after its FIN was accepted", p.N, cm.Key, wm.Attempts)
 		w.violate("C05", "finished-message-reappeared", "m%06d delivered on %s after its FIN was accepted", p.N, cm.Key)
 	}
@@ -417,13 +462,18 @@ func (w *qWorld) onMessage(co *consumer, f Frame) {
 		exp = prev.Att + 1
 		prevStep = prev.Step
 	}
-	if wm.Attempts != exp {
+	if wm.Attempts != exp && !cm.Unordered {
 		gapOK := false
 		if wm.Attempts > exp {
 			ends := 0
 			for _, s := range cm.ConnEnds {
 				if s >= prevStep && s <= step {
 					ends++
+				}
+			}
+			for _, o := range w.cons {
+				if _, bounded := o.slack(); !bounded && o.ck == cm.Key && o.Subscribed && (!o.Dead || o.DeadStep >= prevStep) {
+					ends += 1 << 20 // frames may sit unseen in its output buffer
 				}
 			}
 			if int(wm.Attempts-exp) <= ends {
@@ -438,9 +488,9 @@ func (w *qWorld) onMessage(co *consumer, f Frame) {
 	}
 	// ---- C02 / C04: not before REQ delay or timeout
 	sameLife := prev != nil && prev.lifetime == w.lifetime
-	if prev != nil && !prev.Voided && sameLife {
+	if prev != nil && !prev.Voided && sameLife && !prev.maybeAnswered && !cm.Unordered {
 		switch {
-		case prev.Answer == "req" && prev.AnsKnown && prev.AnsOK:
+		case prev.Answer == "req" && (!prev.AnsKnown || prev.AnsOK):
 			delay := prev.ReqDelay
 			if max := ms(w.cfg.MaxReqTimeoutMs); delay > max {
 				delay = max
@@ -490,7 +540,7 @@ func (w *qWorld) onMessage(co *consumer, f Frame) {
 		U := 0
 		bounded := true
 		for _, x := range co.Dels {
-			if x.Answer != "" || x.Voided {
+			if x.Answer != "" || x.Voided || lastDel(x.mc) != x || x.maybeAnswered {
 				continue
 			}
 			dl, ok := w.deadlineLower(x)
@@ -549,7 +599,6 @@ func (w *qWorld) checkStats() {
 		return
 	}
 	w.rc.Probe("stats_snapshots")
-	flushed := w.allFlushed()
 	// every count non-negative (C13, C08 "counters wrong")
 	for _, t := range doc.Topics {
 		if t.Depth < 0 || t.BackendDepth < 0 {
@@ -600,7 +649,7 @@ func (w *qWorld) checkStats() {
 		if sc == nil {
 			continue
 		}
-		if c.Ephemeral && w.liveConsumersOf(c.Key) == 0 && c.CreatedStep < w.rc.step {
+		if c.Ephemeral && w.liveConsumersOf(c.Key) == 0 && c.CreatedStep < w.epoch && c.hadConsumer {
 			w.violate("C08", "ephemeral-channel-lingers", "ephemeral channel %s has no consumer left but is still in /stats", k)
 		}
 		if sc.Paused != c.Paused {
@@ -610,7 +659,7 @@ func (w *qWorld) checkStats() {
 			w.violate("C13", "client-count", "channel %s client_count %d, model %d", k, sc.ClientCount, w.liveConsumersOf(c.Key))
 		}
 		// conservation law
-		if !c.Tainted && !c.Sampled && flushed {
+		if !c.Tainted && !c.Sampled && !c.Ephemeral && !w.topic(c.Topic).Ephemeral {
 			have := sc.Depth + sc.InFlightCount + sc.DeferredCount + c.Fins + c.Discarded
 			if sc.MessageCount != have {
 				w.violate("C13", "channel-conservation", "channel %s message_count %d != depth %d + in_flight %d + deferred %d + finished %d + discarded %d",
@@ -652,24 +701,26 @@ func (w *qWorld) checkStats() {
 			if scl.RequeueCount != co.Reqs {
 				w.violate("C13", "client-requeue-count", "%s requeue_count %d, accepted REQs %d", co.cl.Name, scl.RequeueCount, co.Reqs)
 			}
-			if flushed {
-				if scl.MessageCount != int64(len(co.Dels)) {
+			{
+				// frames may still sit in the output buffer of a buffered connection
+				unseen := scl.MessageCount - int64(len(co.Dels))
+				if unseen < 0 || (co.Unbuffered && unseen != 0) {
 					w.violate("C13", "client-message-count", "%s message_count %d, frames received %d", co.cl.Name, scl.MessageCount, len(co.Dels))
 				}
 				held, sure := 0, 0
 				for _, d := range co.Dels {
-					if d.Voided || (d.Answer != "" && d.AnsOK) {
+					if d.Voided || (d.Answer != "" && d.AnsOK) || lastDel(d.mc) != d {
 						continue
 					}
 					if d.Answer != "" && !d.AnsOK {
 						continue // refused: it had timed out (or was discarded)
 					}
 					held++
-					if dl, ok := w.deadlineLower(d); ok && time.Now().Before(dl) {
+					if dl, ok := w.deadlineLower(d); ok && time.Now().Before(dl) && !d.maybeAnswered {
 						sure++
 					}
 				}
-				if scl.InFlightCount > int64(held) || scl.InFlightCount < int64(sure) {
+				if scl.InFlightCount > int64(held)+unseen || scl.InFlightCount < int64(sure) {
 					w.violate("C13", "client-in-flight-count", "%s in_flight_count %d, model between %d and %d", co.cl.Name, scl.InFlightCount, sure, held)
 				}
 			}
@@ -692,7 +743,66 @@ func (w *qWorld) checkStats() {
 	w.lastStats = doc
 }
 
+// resolveUncertain: where a burst made the existence of an object depend on
+// the interleaving, adopt what /stats reports at the next quiescent point
+// (counters of such objects stay tainted).
+func (w *qWorld) resolveUncertain() {
+	need := false
+	for _, t := range w.topics {
+		need = need || t.ExistUnknown
+	}
+	for _, c := range w.chans {
+		need = need || c.Uncertain
+	}
+	if !need || w.n == nil {
+		return
+	}
+	doc, _ := w.getStats("")
+	if doc == nil {
+		return
+	}
+	w.rc.Probe("uncertain_resolved")
+	for name, t := range w.topics {
+		if t.ExistUnknown {
+			t.ExistUnknown = false
+			ex := doc.topic(name) != nil
+			if ex && !t.Exists {
+				t.Exists = true
+				t.CreatedStep = w.epoch
+			}
+			t.Exists = ex
+			t.Tainted = true // counters of this incarnation are not known exactly
+			if st := doc.topic(name); st != nil {
+				t.Paused = st.Paused
+			}
+		}
+	}
+	for _, k := range w.sortedChanKeys() {
+		c := w.chans[k]
+		if !c.Uncertain {
+			continue
+		}
+		c.Uncertain = false
+		sc := doc.channel(c.Topic, c.Name)
+		if sc != nil && !c.Exists {
+			c.CreatedSeq = w.rc.Net.NextSeq()
+			c.CreatedStep = w.epoch
+			c.msgs = map[string]*msgChan{}
+			c.Fins, c.Reqs, c.Discarded = 0, 0, 0
+		}
+		c.Exists = sc != nil
+		c.Tainted = true
+		if sc != nil {
+			c.Paused = sc.Paused
+			w.topic(c.Topic).Exists = true
+		}
+	}
+}
+
 func (w *qWorld) anyUncertain(topic string) bool {
+	if t := w.topics[topic]; t != nil && t.ExistUnknown {
+		return true
+	}
 	for _, c := range w.chans {
 		if c.Topic == topic && c.Uncertain {
 			return true
@@ -737,7 +847,7 @@ func (w *qWorld) checkStatsRenderings(doc *statsDoc) {
 	}
 	// filters
 	for _, t := range doc.Topics {
-		fd, r := w.getStats("&topic=" + t.TopicName)
+		fd, r := w.getStats("&topic=" + url.QueryEscape(t.TopicName))
 		if fd == nil {
 			w.violate("C13", "stats-filter-unavailable", "topic filter: %d %v", r.Status, r.Err)
 			continue
@@ -747,7 +857,7 @@ func (w *qWorld) checkStatsRenderings(doc *statsDoc) {
 			w.violate("C13", "filter-mismatch", "topic filter %s reports %+v, unfiltered %+v", t.TopicName, fd.Topics, t)
 		}
 		for _, c := range t.Channels {
-			fd, r := w.getStats("&topic=" + t.TopicName + "&channel=" + strings.Replace(c.ChannelName, "#", "%23", 1) + "&include_clients=false")
+			fd, r := w.getStats("&topic=" + url.QueryEscape(t.TopicName) + "&channel=" + url.QueryEscape(c.ChannelName) + "&include_clients=false")
 			if fd == nil {
 				w.violate("C13", "stats-filter-unavailable", "channel filter: %d %v", r.Status, r.Err)
 				continue
@@ -769,11 +879,12 @@ func (w *qWorld) checkStatsRenderings(doc *statsDoc) {
 func (w *qWorld) checkDataDir() {
 	files := listDataFiles(w.rc.Dir)
 	for _, f := range files {
-		if strings.Contains(f, "#ephemeral") {
+		if i := strings.Index(f, ".diskqueue."); i >= 0 && strings.HasSuffix(f[:i], "#ephemeral") {
+			// <topic>.diskqueue.* of an ephemeral topic, or <topic>:<channel>.diskqueue.* of an ephemeral channel
 			w.violate("C08", "ephemeral-file", "ephemeral object has a file on disk: %s", f)
 		}
-		if !strings.Contains(f, ".diskqueue.") {
-			continue
+		if !strings.Contains(f, ".diskqueue.") || strings.HasSuffix(f, ".bad") {
+			continue // *.bad files are left behind by go-diskqueue itself (outside nsqio/nsq)
 		}
 		name := f[:strings.Index(f, ".diskqueue.")]
 		var topic, ch string
@@ -880,9 +991,6 @@ func (w *qWorld) drain() {
 			c.ephemeralGone = true // its consumers are gone now
 			continue
 		}
-		if w.topic(c.Topic).Ephemeral {
-			continue
-		}
 		before := len(w.cons)
 		w.opSub(Op{A: w.topicIdx(c.Topic), B: w.chanIdx(c.Name), C: w.cfg.MaxRdy, D: 1})
 		if len(w.cons) > before && w.cons[before].Subscribed {
@@ -894,14 +1002,14 @@ func (w *qWorld) drain() {
 	stepD := bound / 40
 	var spent time.Duration
 	for {
+		w.beginStep()
+		w.settle()
 		for _, co := range drainers {
 			for _, d := range heldOf(co) {
-				d.Answer, d.AnsAt, d.AnsStep = "fin", time.Now(), rc.step
+				d.Answer, d.AnsAt, d.AnsStep = "fin", time.Now(), w.epoch
 				co.cl.Cmd("FIN "+d.mc.pub.ID, nil)
 			}
 		}
-		rc.step++
-		w.beginStep()
 		w.settle()
 		if rc.Failed() {
 			return
